@@ -12,8 +12,8 @@ const USIZE: Ty = Ty::Int(IntTy::Usize);
 
 /// rule 29 / C-PTRCAST: a pointer cast is the identity only when the pointee stays a limb
 fn limb_ptr_type(t: &syn::Type) -> bool {
-    let s: String = quote::quote!(#t).to_string().chars().filter(|c| !c.is_whitespace()).collect();
-    matches!(s.as_str(), "*constbigint::Limb" | "*mutbigint::Limb" | "*constLimb" | "*mutLimb")
+    let s: String = crate::check::text(t);
+    matches!(s.as_str(), "* const bigint :: Limb" | "* mut bigint :: Limb" | "* const Limb" | "* mut Limb")
 }
 
 fn is_stable(t: &str) -> bool {
@@ -282,8 +282,7 @@ impl<'a> Cx<'a> {
                 "data" => {
                     // an array of uninitialised cells
                     if let syn::Expr::Repeat(r) = &fv.expr {
-                        let e: String = quote::quote!(#r).to_string().chars().filter(|c| !c.is_whitespace()).collect();
-                        data_ok = e == "[mem::MaybeUninit::uninit();bigint::BIGINT_LIMBS]";
+                        data_ok = crate::check::text(r) == "[mem :: MaybeUninit :: uninit () ; bigint :: BIGINT_LIMBS]";
                     }
                     if !data_ok {
                         return err(fv.span(), "`data` must be `[mem::MaybeUninit::uninit(); bigint::BIGINT_LIMBS]`");
